@@ -264,6 +264,50 @@ def construction_paths_family(out, prop):
             if not seen or any(s_ != want for s_ in seen[-1:]) or sorted(b.__pane_set__) != want:
                 out.violation(f'{prop}:hook-reading-set-record', f'{label}: the hook saw the set-field record {seen}, the instance ends with {sorted(b.__pane_set__)}, '
                               f'supplied were {want}', {'path': label})
+        # hooks whose verdict depends on WHICH fields were given: the two passes and every path must agree
+        from pane.convert import make_converter as _mk
+
+        class Limits(pane.PaneBase, in_format=('tuple', 'struct')):
+            lo: float = 0.0
+            hi: float = 1.0
+
+            def __post_init__(self):
+                if not ({'lo', 'hi'} & set(self.__pane_set__)):
+                    raise ValueError('give at least one of lo, hi')
+
+        class Grid(pane.PaneBase):
+            rows: int = 1
+            cols: int = 1
+            cells: int = 1
+
+            def __post_init__(self):
+                if 'cells' in self.__pane_set__ and ({'rows', 'cols'} & set(self.__pane_set__)):
+                    raise ValueError('cells excludes rows / cols')
+        for cls, data, want in ((Limits, {}, False), (Limits, {'lo': 0.5}, True), (Limits, {'hi': 2.0, 'lo': 1.0}, True), (Limits, [], False), (Limits, [0.5], True),
+                                (Grid, {'cols': 100}, True), (Grid, {'cells': 9}, True), (Grid, {'cells': 9, 'rows': 3}, False), (Grid, {}, True)):
+            for how, T, d, pick in (('top', cls, data, lambda r: r), ('list element', t.List[cls], [data], lambda r: r[0]), ('optional', t.Optional[cls], data, lambda r: r)):
+                n += 1
+                conv = _mk(T)
+                try:
+                    tv = ('ok', conv.try_convert(d))
+                except Exception as e:
+                    tv = ('reject' if type(e).__name__ == 'ParseInterrupt' else 'escape:' + type(e).__name__, None)
+                try:
+                    cv = conv.collect_errors(d)
+                    cv = 'none' if cv is None else 'tree'
+                except Exception as e:
+                    cv = 'escape:' + type(e).__name__
+                try:
+                    pane.from_data(d, T)
+                    fd = 'ok'
+                except ConvertError:
+                    fd = 'ConvertError'
+                except Exception as e:
+                    fd = type(e).__name__
+                exp = ('ok', 'none', 'ok') if want else ('reject', 'tree', 'ConvertError')
+                if (tv[0], cv, fd) != exp:
+                    out.violation(f'{prop}:hook-depending-on-set-record', f'{cls.__name__} ({how}) from {d!r}: try_convert {tv[0]}, collect_errors {cv}, from_data {fd}; '
+                                  f'the hook {"accepts" if want else "refuses"} this set of given fields, so the three must be {exp}', {'class': cls.__name__, 'data': repr(d), 'context': how})
         n += 1
         try:
             pane.from_data({'x': 1, 'z': None}, Watch)
@@ -623,6 +667,10 @@ def struct_mapping_family(out, prop):
         x: int = pane.field(aliases=['X', 'ex'])
         y: int = 0
 
+    class Bagged(pane.PaneBase):
+        items: t.Any = pane.field(default=None, aliases=['entries', 'more'])
+        n: int = 0
+
     class Odd(pane.PaneBase):
         key: str
         retries: int = None          # defaults are stored verbatim: these are not members of the field types
@@ -637,7 +685,7 @@ def struct_mapping_family(out, prop):
     members = _M()
     with warnings.catch_warnings():
         warnings.simplefilter('ignore')
-        for cls in (Plain, Strict, Renamed, Camel, Aliased, Odd):
+        for cls in (Plain, Strict, Renamed, Camel, Aliased, Bagged, Odd):
             info = cls.__pane_info__
             conv = make_converter(cls)
             fields = [f for f in info.fields if f.init]
